@@ -120,7 +120,7 @@ def run_interpreted(p, args, compiled_out, deep=False):
     return flatten(r), tap
 
 
-SLOPE_OUTPUT = {"mk_sens_slope": 0, "mann_kendall_trend_1d": 2, "_mann_kendall_trend_gu": 2, "_mann_kendall_trend_gu_nd": 2, "mann_kendall_trend_yxt": 2}
+SLOPE_OUTPUT = {"mk_sens_slope": 0, "mann_kendall_trend_1d": 2, "_mann_kendall_trend_gu": 2, "_mann_kendall_trend_gu_nd": 2}
 ROBUST_PROGRAMS = {"ws2dwcv", "ws2dwcvp", "_ws2dwcvp"}
 ROBUST_LINES = {("mad = np.median(np.abs(r_arr[", "u_arr = r_arr /"): ["mad", "w_temp", "s"]}
 
@@ -245,6 +245,14 @@ def compare_case(R, p, dtype, cls, args, deep=False):
                 atol = max(atol0, 8 * 2.0 ** -23 * float(np.max(np.abs(xin))))
                 if name == "mk_sens_slope" and k == 1:  # intercept = median(x) - (n - 1) / 2 * slope inherits (n - 1) / 2 slope errors
                     atol *= 1 + xin.size / 2
+        if dtype == "float32" and name == "mann_kendall_trend_yxt" and k == 0 and c.ndim == 3 and c.shape[-1] == 4:
+            # one (y, x, 4) array: tau, p, slope, trend - only the slope plane is in data units
+            xin = np.asarray(args[0], dtype=np.float64)
+            xin = xin[np.isfinite(xin)]
+            a_sl = max(atol0, 8 * 2.0 ** -23 * float(np.max(np.abs(xin)))) if xin.size else atol0
+            if close(c[..., 2], i[..., 2], rtol, a_sl):
+                c, i = c.copy(), i.copy()
+                i[..., 2] = c[..., 2]
         if c.dtype.kind == "f" or i.dtype.kind == "f":
             if not close(c, i, rtol, atol):
                 if name in SELECTORS and c.size == max(1, c.size) and k >= 1:
